@@ -155,13 +155,19 @@ def runClose (trunc : F → Int) (lim : Lim F) (sortBy : List (Centroid F) → L
 
 /-! ### driver helpers: the sort and the limits as observed oracles -/
 
-/-- is `perm` a permutation of `0 … n-1`? -/
+/-- is `perm` a permutation of `0 … n-1`? (length n, every index in range and met once) -/
 def isPermOfRange (perm : List Nat) (n : Nat) : Bool :=
-  perm.length == n && (List.range n).all (fun i => perm.contains i)
+  perm.length == n &&
+  (perm.foldl (fun (st : Array Bool × Bool) i =>
+      if st.1.getD i true then (st.1, false)          -- out of range, or seen before
+      else (st.1.setIfInBounds i true, st.2)) (Array.replicate n false, true)).2
 
 /-- `sortBy` realised by a given permutation of indices (identity on a malformed one) -/
 def applyPerm (perm : List Nat) (l : List (Centroid F)) : List (Centroid F) :=
-  if isPermOfRange perm l.length then perm.filterMap (fun i => l[i]?) else l
+  if isPermOfRange perm l.length then
+    let a := l.toArray
+    perm.filterMap (fun i => a[i]?)
+  else l
 
 /-- is the list sorted the way `sort.Sort` leaves it (`!Less(j, i)` for `i < j`, adjacent pairs)? -/
 def sortedByMean : List (Centroid F) → Bool
